@@ -5,6 +5,7 @@ package trig
 import (
 	"encoding/json"
 	"fmt"
+	"math"
 	"os"
 	"os/exec"
 	"sort"
@@ -53,7 +54,10 @@ type Case struct {
 	ID    int64     `json:"id"`
 	Npre  int       `json:"npre"`
 	Nsamp int       `json:"nsamp"`
-	Rate  int64     `json:"rate"` // samples per second; 1e9 must be a multiple
+	Rate  int64     `json:"rate"` // samples per second; 1e9 must be a multiple (sample period = a whole number of ns)
+	// FRate, when > 0, replaces Rate: any sample rate; the blocks then carry the period a real source uses,
+	// time.Duration(roundint(1e9/rate)) whole nanoseconds, which is NOT 1/rate
+	FRate float64   `json:"frate,omitempty"`
 	F0    int64     `json:"f0"`
 	T0    int64     `json:"t0"`
 	Chans []ChanCfg `json:"chans"`
@@ -74,9 +78,12 @@ func (t TS) goState() dastard.TriggerState {
 
 // DelaySamples is the oracle  int(AutoDelay.Seconds()*SampleRate + 0.5)  evaluated exactly as triggering.go does.
 // For non-negative delays the harness only uses values for which the float expression is exact, and checks it.
-func DelaySamples(delayNs, rate int64) int64 {
-	v := int64(int(time.Duration(delayNs).Seconds()*float64(rate) + 0.5))
-	if delayNs >= 0 {
+// For sample rates whose period is not a whole number of nanoseconds (Case.FRate) there is nothing to compare with:
+// the value of the float expression IS the specification of the delay in samples.
+func DelaySamples(delayNs int64, frate float64, exactRate int64) int64 {
+	v := int64(int(time.Duration(delayNs).Seconds()*frate + 0.5))
+	if delayNs >= 0 && exactRate > 0 {
+		rate := exactRate
 		num := delayNs * rate // delayNs < 2^40, rate <= 1e6
 		if num%1000000000 != 0 || num/1000000000 != v {
 			panic(fmt.Sprintf("harness: auto delay %d ns at %d Hz is not an exact sample count (%d)", delayNs, rate, v))
@@ -85,8 +92,29 @@ func DelaySamples(delayNs, rate int64) int64 {
 	return v
 }
 
-func (t TS) term(rate int64) string {
-	return fmt.Sprintf("(TS %s %s %d %s %s %d %s %s %s %s %s)", lib.B(t.Auto), lib.Z(DelaySamples(t.DelayNs, rate)), t.Veto,
+// SampleRate is the rate handed to the source; PeriodNs the frame period its blocks carry.
+func (c Case) SampleRate() float64 {
+	if c.FRate > 0 {
+		return c.FRate
+	}
+	return float64(c.Rate)
+}
+
+func roundint(x float64) int64 { return int64(x + math.Copysign(0.5, x)) } // as lancero_source.go
+
+func (c Case) PeriodNs() int64 {
+	if c.FRate > 0 {
+		return roundint(1e9 / c.FRate)
+	}
+	return 1000000000 / c.Rate
+}
+
+func (t TS) term(c Case) string {
+	exact := c.Rate
+	if c.FRate > 0 {
+		exact = 0
+	}
+	return fmt.Sprintf("(TS %s %s %d %s %s %d %s %s %s %s %s)", lib.B(t.Auto), lib.Z(DelaySamples(t.DelayNs, c.SampleRate(), exact)), t.Veto,
 		lib.B(t.Level), lib.B(t.LRising), t.LLevel, lib.B(t.Edge), lib.B(t.ERising), lib.B(t.EFalling), lib.Z(int64(t.ELevel)), lib.B(t.EMulti))
 }
 
@@ -154,14 +182,18 @@ func Run(c Case) lib.Result {
 		C    []ChanCfg
 		O    []Op
 		S    bool
-	}{c.Npre, c.Nsamp, c.Rate, c.F0, c.T0, c.Chans, c.Ops, c.Stray})}
+		FR   float64
+	}{c.Npre, c.Nsamp, c.Rate, c.F0, c.T0, c.Chans, c.Ops, c.Stray, c.FRate})}
 	nchan := len(c.Chans)
-	if nchan == 0 || c.Rate <= 0 || 1000000000%c.Rate != 0 {
+	if nchan == 0 || (c.FRate <= 0 && (c.Rate <= 0 || 1000000000%c.Rate != 0)) || (c.FRate > 0 && c.FRate < 100) {
 		panic("harness: bad case")
 	}
-	period := 1000000000 / c.Rate
+	period := c.PeriodNs()
 	var restored []dastard.FullTriggerState
 	tags := map[string]bool{}
+	if c.FRate > 0 {
+		tags["sample-period-not-whole-ns"] = true
+	}
 	cur := make([]TS, nchan) // settings in force per channel (harness-side bookkeeping for tags)
 	for i, cc := range c.Chans {
 		cur[i] = DefaultTS
@@ -176,7 +208,7 @@ func Run(c Case) lib.Result {
 		restored = append(restored, dastard.FullTriggerState{ChannelIndices: []int{nchan, nchan + 3}, TriggerState: stray.goState()})
 		tags["saved-settings-for-absent-channels"] = true
 	}
-	b, err := dastard.VerifNewBench(nchan, c.Npre, c.Nsamp, float64(c.Rate), restored)
+	b, err := dastard.VerifNewBench(nchan, c.Npre, c.Nsamp, c.SampleRate(), restored)
 	if err != nil {
 		panic(err)
 	}
@@ -286,7 +318,7 @@ func Run(c Case) lib.Result {
 					continue
 				}
 				seen[ci] = true
-				terms[ci] = append(terms[ci], fmt.Sprintf("CT %s %s", o.TS.term(c.Rate), lib.B(e != nil)))
+				terms[ci] = append(terms[ci], fmt.Sprintf("CT %s %s", o.TS.term(c), lib.B(e != nil)))
 				ob = append(ob, ChanObs{Chan: ci, Err: e != nil})
 				cur[ci] = *o.TS
 			}
@@ -381,7 +413,7 @@ func caseTerm(c Case, terms [][]string) string {
 		if c.Chans[i].Restored != nil {
 			t = *c.Chans[i].Restored
 		}
-		chans = append(chans, fmt.Sprintf("ch %d %d %s %s %s", c.Npre, c.Nsamp, t.term(c.Rate), lib.Z(c.F0), lib.List(terms[i])))
+		chans = append(chans, fmt.Sprintf("ch %d %d %s %s %s", c.Npre, c.Nsamp, t.term(c), lib.Z(c.F0), lib.List(terms[i])))
 	}
 	return lib.List(chans)
 }
@@ -442,7 +474,7 @@ func Crash(raw json.RawMessage, stderr string) (lib.Result, error) {
 		}
 	}
 	o := c.Ops[k]
-	period := 1000000000 / c.Rate
+	period := c.PeriodNs()
 	next := c.F0
 	for _, q := range c.Ops[:k] {
 		if q.Op == "B" && len(q.D) == len(c.Chans) && len(q.D[0]) > 0 {
